@@ -339,6 +339,95 @@ theorem detect_partial_failure_keeps_rest (init : Bytes) (ds : List (Option DetO
   · intro h1 h2; rw [h1, h2]; rfl
   · intro h1; rw [h1]; rfl
 
+/-- every explicitly given detector returns nil or a well-formed resource -/
+def WFopts (opts : List Opt) : Prop := ∀ o ∈ opts, ∀ ds, o = Opt.withDetectors ds → WFds ds
+
+private theorem optDetectors_eq_ref (env : Env) (o : Opt) : optDetectors env o = optDetRef env o := by
+  cases o with
+  | withSchemaURL s => rfl
+  | withDetectors ds => rfl
+  | withAttributes kvs => simp [optDetectors, optDetRef, newSchemaless_eq]
+  | withFromEnv =>
+    obtain ⟨h1, h2⟩ := env_parse_spec env.attrs env.svc
+    simp [optDetectors, optDetRef, h1, h2]
+
+private theorem foldl_applyOpt (env : Env) (opts : List Opt) (cfg : Cfg) :
+    (opts.foldl (applyOpt env) cfg).detectors = cfg.detectors ++ opts.flatMap (optDetectors env) ∧
+    (opts.foldl (applyOpt env) cfg).schemaURL =
+      opts.foldl (fun s o => match o with | .withSchemaURL x => x | _ => s) cfg.schemaURL := by
+  induction opts generalizing cfg with
+  | nil => simp
+  | cons o rest ih =>
+    obtain ⟨h1, h2⟩ := ih (applyOpt env cfg o)
+    simp only [List.foldl_cons, List.flatMap_cons]
+    rw [h1, h2]
+    cases o <;> simp [applyOpt, optDetectors]
+
+private theorem wfds_flatMap (env : Env) (opts : List Opt) (h : WFopts opts) :
+    WFds (opts.flatMap (optDetRef env)) := by
+  intro d hd o hdo r hr
+  obtain ⟨opt, hopt, hmem⟩ := List.mem_flatMap.mp hd
+  cases opt with
+  | withSchemaURL s => simp [optDetRef] at hmem
+  | withDetectors ds => exact h _ hopt ds rfl d hmem o hdo r hr
+  | withAttributes kvs =>
+    simp only [optDetRef, List.mem_singleton] at hmem
+    subst hmem; cases hdo; cases hr
+    exact contents_wf kvs
+  | withFromEnv =>
+    simp only [optDetRef, List.mem_singleton] at hmem
+    subst hmem; cases hdo; cases hr
+    exact contents_wf _
+
+/-- **resource.New, in the form the oracle checks on the real code** (`Spec.newRef`): applying the
+options in order and running `detect` equals the `Detect` reference on the concatenation of every
+option's detectors in option order — nothing is skipped or re-ordered, an option or detector that
+is given again counts again at its later position — started from the LAST schema URL option. -/
+theorem new_spec (env : Env) (opts : List Opt) (h : WFopts opts) : newResource env opts = newRef env opts := by
+  obtain ⟨h1, h2⟩ := foldl_applyOpt env opts {}
+  unfold newResource newRef schemaOf
+  simp only [List.nil_append] at h1 h2
+  show detect (opts.foldl (applyOpt env) {}).schemaURL (opts.foldl (applyOpt env) {}).detectors = _
+  rw [h1, h2]
+  have : opts.flatMap (optDetectors env) = opts.flatMap (optDetRef env) := by
+    congr 1; funext o; exact optDetectors_eq_ref env o
+  rw [this]
+  exact detect_spec _ _ (wfds_flatMap env opts h)
+
+/-- **later options and later detectors win**, on the option path of `New`: every key is bound to
+the value of the last kept detector — over all options, in option order — that binds it.  In
+particular a detector configured again as the last option prevails over everything configured
+between its two occurrences: whatever `pre` is, `New(pre…, WithDetectors(d))` binds every key of
+`d`'s resource to `d`'s value. -/
+theorem new_later_option_wins (env : Env) (opts : List Opt) (h : WFopts opts) :
+    (∀ k, lookup (newResource env opts).res.attrs k =
+      lookupLast (((opts.flatMap (optDetRef env)).filterMap keptRes).flatMap (·.attrs)) k) ∧
+    (∀ (pre : List Opt) (r : Res) (e : Option Err), opts = pre ++ [Opt.withDetectors [some ⟨some r, e⟩]] →
+      e.all (·.isPartial) = true →
+      ∀ k v, lookup r.attrs k = some v → lookup (newResource env opts).res.attrs k = some v) := by
+  have hall : ∀ k, lookup (newResource env opts).res.attrs k =
+      lookupLast (((opts.flatMap (optDetRef env)).filterMap keptRes).flatMap (·.attrs)) k := by
+    intro k
+    rw [new_spec env opts h]
+    have := detect_later_wins (schemaOf opts) (opts.flatMap (optDetRef env)) (wfds_flatMap env opts h) k
+    rw [detect_spec _ _ (wfds_flatMap env opts h)] at this
+    exact this
+  refine ⟨hall, ?_⟩
+  intro pre r e hopts he k v hkv
+  have hmem : Opt.withDetectors [some ⟨some r, e⟩] ∈ opts := by rw [hopts]; simp
+  have hr : WF r.attrs := h _ hmem _ rfl _ (List.mem_singleton.mpr rfl) _ rfl r rfl
+  rw [hall k, hopts]
+  have hkept : keptRes (some ⟨some r, e⟩) = some r := by
+    cases e with
+    | none => rfl
+    | some e' =>
+      have : e'.isPartial = true := by simpa using he
+      simp [keptRes, this]
+  simp only [List.flatMap_append, List.flatMap_cons, List.flatMap_nil, List.append_nil, optDetRef,
+    List.filterMap_append, List.filterMap_cons, List.filterMap_nil, hkept]
+  rw [lookupLast_append, lookupLast_eq_lookup hr.1, hkv]
+  rfl
+
 /-! ### non-vacuity -/
 
 example : merge (some ⟨[⟨[0x61], .int 1⟩, ⟨[0x62], .str [0x78]⟩], [1]⟩) (some ⟨[⟨[0x62], .str [0x79]⟩, ⟨[0x63], .bool true⟩], [2]⟩) =
@@ -351,6 +440,9 @@ example : fromEnv [0x6b, 0x3d, 0x20, 0x25, 0x34, 0x31, 0x20, 0x2c, 0x6b, 0x32, 0
      some ⟨true, false⟩, 1) := by decide
 example : cleanKey [0x6b, 0x2e, 0x31] = true ∧
     renderEnv [([0x6b], [0x20, 0xff]), ([0x6b, 0x32], [])] = [0x6b, 0x3d, 0x25, 0x32, 0x30, 0x25, 0x46, 0x46, 0x2c, 0x6b, 0x32, 0x3d] := by decide
+/-- `New(WithDetectors(a, b, a))`: the detector `a` given again after `b` wins -/
+example : (newResource ⟨[], []⟩ [.withDetectors [some ⟨some ⟨[⟨[0x6b], .int 1⟩], []⟩, none⟩, some ⟨some ⟨[⟨[0x6b], .int 2⟩], []⟩, none⟩,
+      some ⟨some ⟨[⟨[0x6b], .int 1⟩], []⟩, none⟩]]).res = ⟨[⟨[0x6b], .int 1⟩], []⟩ := by decide
 /-- ok(s/1) ; fatal ; partial(s/2, conflicting) ; nil detector ; ok(nil resource) -/
 example : detect [] [some ⟨some ⟨[⟨[0x61], .bool true⟩], [1]⟩, none⟩, some ⟨some ⟨[⟨[0x62], .bool true⟩], []⟩, some ⟨false, false⟩⟩,
       some ⟨some ⟨[⟨[0x61], .bool false⟩, ⟨[0x63], .str [0x78]⟩], [2]⟩, some ⟨true, false⟩⟩, none, some ⟨none, none⟩] =
